@@ -1,19 +1,24 @@
 """C11 -- queries are pure: no input mutation, no order dependence, deterministic.
 
 Case kinds (input["op"]):
-  hist   a random history of constructions / cached reads / plain queries / derivations (arithmetic, slicing, copy,
-         trimming, Imaging(data=...), MapperValued, the two inversion factories) on REAL objects.  After every step every
-         caller-owned input, every object's array and every modelled cached value is fingerprinted; the names whose
-         contents changed are reported with their new contents; every read is paired with the same quantity computed on
-         a freshly built, never-read twin (the table `qf`).  Coq replays the history on the heap machine (model) and on
-         the value semantics (spec) and compares observations, changed names (also against the write set of each step's
-         effect summary) and the final contents of everything.
-  inv    random reads of curvature_matrix / curvature_reg_matrix / the preloaded curvature matrix on a real inversion
-         (single regularization: in-place += into the cached matrix) -> KInv, values as IEEE bit patterns.
-  graph  random access orders over the public quantities of an object graph (inversion -> mappers -> dataset -> grids),
-         every observation compared bit for bit with a never-read twin, all caller-owned inputs, preloads, settings and
-         default-argument singletons fingerprinted (Python-only relation: py_ok).
-  seed   SimulatorImaging(noise_seed=k).via_image_from / preprocess noise helpers under perturbed global RNG states -> KSeed.
+  hist     a random history of constructions (incl. Kernel2D(normalize=True), psf.normalized, x.native, x.slim) / cached reads / plain
+           queries / derivations (arithmetic, slicing, copy, trimming, Imaging(data=...), MapperValued, the two inversion factories) on REAL
+           objects.  After every step every caller-owned input, every object's array and every modelled cached value is fingerprinted; the
+           names whose contents changed are reported with their new contents; every read is paired with the same quantity computed on a
+           freshly built, never-read twin (the table `qf`).  Coq replays the history on the heap machine (model) and on the value semantics
+           (spec) and compares observations, changed names (also against the write set of each step's effect summary) and the final
+           contents of everything.  -> KA (KHist ..)
+  gcase    random reads on the real object graph of one of the quantity graphs of coq/Model/C11g.v (Delaunay / Voronoi mesh + mapper +
+           valued mapper; FitImaging -> Imaging -> inversion; derivation chains; Interferometer -> inversion): value (vs twin), set of
+           cached_property entries present in the instance __dict__s, entries whose bytes changed -> KGraph, evaluated in Coq against the
+           memoising machine (model) and the pure node values (spec).
+  inv      random reads of curvature_matrix / curvature_reg_matrix / the preloads on a real inversion -> KA (KInv ..).
+  graph / fit / mesh / reuse   random access orders (each second case: every quantity after every other one) over the public quantities of
+           an object graph, every observation compared bit for bit with a never-read twin built from unshared parts, all caller-owned
+           inputs, preloads, settings and default-argument singletons fingerprinted (Python-only relations: py_ok).
+  edit     read -> the user assigns into the object -> re-read, vs a fresh object holding the edited contents (py_ok).
+  dsderive dataset derivations with vs without prior reads on the source (py_ok).
+  seed     seeded simulations under perturbed global RNG states -> KA (KSeed ..); the images / kernels handed over are fingerprinted.
 """
 import sys, types, zlib, itertools, hashlib
 if "pylops" not in sys.modules:          # stand-in (pylops is not installed): lets Interferometer / TransformerDFT be built
@@ -22,27 +27,61 @@ if "pylops" not in sys.modules:          # stand-in (pylops is not installed): l
     _p.Diagonal = None
     sys.modules["pylops"] = _p
 import numpy as np
+def _install_nn_stand_in():
+    """stand-in for the optional C library behind autoarray.util.nn.nn_py (natural-neighbour interpolation; not built here):
+    a deterministic inverse-distance scheme over the 3 nearest mesh points with the same signatures / shapes / -1 padding.
+    It lets MapperVoronoi.mapping_matrix (hence MapperValued.magnification_via_mesh_from on a Voronoi mesh) be evaluated."""
+    name = "autoarray.util.nn.nn_py"
+    if name in sys.modules: return
+    mod = types.ModuleType(name)
+    def _nearest(x_in, y_in, x_target, y_target, k):
+        pin = np.stack((np.asarray(x_in, float), np.asarray(y_in, float)), axis=1)
+        pt = np.stack((np.asarray(x_target, float), np.asarray(y_target, float)), axis=1)
+        d2 = ((pt[:, None, :] - pin[None, :, :]) ** 2).sum(axis=2)
+        idx = np.argsort(d2, axis=1, kind="stable")[:, :k]
+        w = 1.0 / (1.0e-3 + np.take_along_axis(d2, idx, axis=1))
+        return idx, w / w.sum(axis=1)[:, None]
+    def natural_interpolation_weights(x_in, y_in, x_target, y_target, max_nneighbours):
+        k = min(3, len(x_in), max_nneighbours)
+        idx, w = _nearest(x_in, y_in, x_target, y_target, k)
+        weights = np.zeros((len(x_target), max_nneighbours)); indexes = np.zeros((len(x_target), max_nneighbours), dtype=np.intc) - 1
+        weights[:, :k] = w; indexes[:, :k] = idx
+        return weights, indexes
+    def natural_interpolation(x_in, y_in, z_in, x_target, y_target):
+        k = min(3, len(x_in))
+        idx, w = _nearest(x_in, y_in, x_target, y_target, k)
+        return (np.asarray(z_in, float)[idx] * w).sum(axis=1)
+    mod.natural_interpolation_weights = natural_interpolation_weights
+    mod.natural_interpolation = natural_interpolation
+    sys.modules[name] = mod
+_install_nn_stand_in()
 from harness.common import cz, cnat, cbool, clist, ctup, import_aa
 
 ID = "C11"
 GEN = []
 PROPS = "Props/C11.v"
-COQ_CHECK = ("Model.C11", "check")
-COQ_FALLBACK = ("Model.C11", "spec_ok")
+COQ_CHECK = ("Model.C11c", "check")
+COQ_FALLBACK = ("Model.C11c", "spec_ok")
 COQ_IMPORTS = ""
 SHARD = 60
 RULE = ("random histories (length <= 26) over Array2D / Grid2D / VectorYX2D / Kernel2D / Visibilities / Mask2D / Imaging / "
-        "MapperRectangular / MapperValued / SettingsInversion objects plus a fixed corpus of the witness histories of D7-D12, "
-        "D19; random read orders on inversions and object graphs; seeded simulations under perturbed RNG states. "
-        "A case is non-trivial if it contains at least one read after a derivation or a repeated read; distinct = distinct JSON input.")
+        "MapperRectangular / MapperValued / SettingsInversion objects plus a fixed corpus of the witness histories of D7-D12, D19 and of the "
+        "in-place kernel normalisation; random reads on the five quantity graphs of Model/C11g.v; random read orders (with sweeps) on "
+        "inversions, fits, meshes and on inversions sharing parts; user edits; dataset derivations; seeded simulations under perturbed "
+        "RNG states. A case is non-trivial if it contains at least one read after a derivation or a repeated read; distinct = distinct JSON input.")
 EXHAUSTIVE = {}
 TRUSTED = ["hand-written heap/effect model coq/Model/C11.v (tied to /repo by this run: observations, changed names vs effect "
            "summaries and final contents are compared inside Coq)",
+           "hand-written quantity graphs coq/Model/C11g.v (tied to /repo by this run: values, cache fills and changed entries after every "
+           "read are compared inside Coq)",
            "harness/c11.py: twin construction (same constructor, same contents, never read), value encoding (integral floats "
            "as integers, others as IEEE-754 bit patterns), fingerprints (crc32 of bytes + shape + dtype)",
            "Python reference semantics of attributes / __dict__ / numpy views (modelled, not verified)"]
 ASSUMPTIONS = ["pylops is absent: a stand-in module (LinearOperator = object) is installed before importing autoarray so that "
                "Interferometer datasets can be built; numba absent",
+               "the optional C natural-neighbour library behind autoarray.util.nn.nn_py is not built: a deterministic stand-in (3 nearest "
+               "mesh points, inverse-distance weights, same signatures / shapes) is installed so that MapperVoronoi.mapping_matrix and "
+               "MapperValued.magnification_via_mesh_from on a Voronoi mesh can be evaluated",
                "object attributes other than the array (pixel_scales = 1.0, origin (0,0), over_sampling sub_size 2 / 1, psf, noise "
                "level) are fixed per kind; quantity values are opaque to the model (table qf measured on never-read twins)",
                "Visibilities(visibilities=ndarray) stores the caller's ndarray itself (no copy); the model allocates a copy -- "
@@ -115,6 +154,12 @@ def leaves(x, path="", out=None, seen=None, depth=0):
     if isinstance(x, dict):
         for i, k in enumerate(list(x)[:200]): leaves(x[k], f"{path}{{{i}}}", out, seen, depth + 1)
         return out
+    if type(x).__module__.startswith("scipy."):
+        # a scipy.spatial Delaunay / Voronoi object: its defining arrays (it fills private lazy fields -- _transform,
+        # _vertex_to_simplex -- when it is queried: its own business, not the library's)
+        for k in ("points", "simplices", "neighbors", "vertices", "ridge_points", "ridge_vertices", "regions", "point_region"):
+            if k in getattr(x, "__dict__", {}): leaves(x.__dict__[k], f"{path}.{k}", out, seen, depth + 1)
+        return out
     d = getattr(x, "__dict__", None)
     if isinstance(d, dict) and not isinstance(x, type) and not callable(x):
         for k in sorted(d):
@@ -126,12 +171,18 @@ def leaves_changed(before, after):
 
 # ----------------------------------------------------------------------------- kinds
 SUB = 2
-def _mask(aa, m): return aa.Mask2D(mask=np.array(m, dtype=bool), pixel_scales=1.0)
+GEOM = {"ps": 1.0, "origin": (0.0, 0.0)}     # pixel scales / origin of every mask of the history being run (twins included)
+def _mask(aa, m): return aa.Mask2D(mask=np.array(m, dtype=bool), pixel_scales=GEOM["ps"], origin=GEOM["origin"])
 
 def view_grids(g):
+    """the four grids of a GridsDataset / GridsInterface: coordinates, and the over-sampling each grid carries (its sub-size)"""
     out = []
     for n in ("uniform", "non_uniform", "pixelization", "blurring"):
-        try: out += enc_val(getattr(g, n))
+        try:
+            x = getattr(g, n)
+            out += enc_val(x)
+            sub = getattr(getattr(x, "over_sampling", None), "sub_size", None)
+            out += [NAN + 10] + (enc_val(sub) if sub is not None else [NAN + 3])
         except Exception as e: out += exc_code(e)
     return out
 def view_convolver(c):
@@ -167,26 +218,45 @@ KINDS = {
 }
 SIZE_EXC = ("ArrayException", "GridException", "VectorYXException")
 
+def dec_num(n):
+    """inverse of enc_num"""
+    n = int(n)
+    if n == NAN: return float("nan")
+    if n == NAN + 1: return float("inf")
+    if n == NAN + 2: return float("-inf")
+    if abs(n) < 2 ** 52: return float(n)
+    return float(np.int64(n).view(np.float64))
 def decode(contents, kind, shape):
-    """model contents (integers) -> ndarray of the object's array shape"""
-    a = np.array(contents, dtype=float)
+    """model contents (integers; non-integral floats as IEEE bit patterns) -> ndarray of the object's array shape"""
+    a = np.array([dec_num(x) for x in contents], dtype=float)
     if kind == "vis":
         a = a.reshape(-1, 2); return (a[:, 0] + 1j * a[:, 1]).reshape(shape)
     if kind == "mask": return a.reshape(shape).astype(bool)
     return a.reshape(shape)
 
-def make(kind, values, mask2d, store_native):
+_SHARED_MASKS = {}
+def shared_mask(aa, mask2d):
+    """ONE Mask2D object per mask pattern for the history being run: structures built with "share" hold the same object"""
+    key = str(mask2d)
+    if key not in _SHARED_MASKS: _SHARED_MASKS[key] = aa.Mask2D(mask=np.array(mask2d, dtype=bool), pixel_scales=GEOM["ps"], origin=GEOM["origin"])
+    return _SHARED_MASKS[key]
+def make(kind, values, mask2d, store_native, normalize=False, share=False):
     """the public constructor of each kind, with the fixed side attributes"""
     aa = import_aa()
+    if share and kind in ("array", "kernel", "grid"):
+        m = shared_mask(aa, mask2d)
+        if kind == "array": return aa.Array2D(values=values, mask=m, store_native=store_native)
+        if kind == "kernel": return aa.Kernel2D(values=values, mask=m, store_native=store_native, normalize=normalize)
+        return aa.Grid2D(values=values, mask=m, store_native=store_native, over_sampling=aa.OverSamplingUniform(sub_size=SUB))
     if kind == "array": return aa.Array2D(values=values, mask=_mask(aa, mask2d), store_native=store_native)
-    if kind == "kernel": return aa.Kernel2D(values=values, mask=_mask(aa, mask2d), store_native=store_native)
+    if kind == "kernel": return aa.Kernel2D(values=values, mask=_mask(aa, mask2d), store_native=store_native, normalize=normalize)
     if kind == "grid":
         return aa.Grid2D(values=values, mask=_mask(aa, mask2d), store_native=store_native, over_sampling=aa.OverSamplingUniform(sub_size=SUB))
     if kind == "vector":
         m = _mask(aa, mask2d)
         return aa.VectorYX2D(values=values, grid=aa.Grid2D.from_mask(mask=m), mask=m, store_native=store_native)
     if kind == "vis": return aa.Visibilities(visibilities=values)
-    if kind == "mask": return aa.Mask2D(mask=values, pixel_scales=1.0)
+    if kind == "mask": return aa.Mask2D(mask=values, pixel_scales=GEOM["ps"], origin=GEOM["origin"])
     if kind == "mapper":
         m = _mask(aa, mask2d)
         grid = aa.Grid2D(values=values, mask=m, over_sampling=aa.OverSamplingUniform(sub_size=1))
@@ -239,7 +309,8 @@ def twin(kind, mask2d, native, contents, shape):
     base = make(kind, np.zeros(base_shape), mask2d, native)
     return base.with_new_array(values)
 
-RAW = {("mapper", "mapping_matrix")}      # quantities the model computes with (everything else is opaque to it)
+NORMQ = "__normalized__"
+RAW = {("mapper", "mapping_matrix"), ("kernel", NORMQ)}      # quantities the model computes with (everything else is opaque to it)
 def digest(enc):
     """opaque values travel as a 2 x 60-bit digest of their full encoding (keeps the Coq terms small)"""
     h = hashlib.sha256(repr(enc).encode()).digest()
@@ -373,9 +444,29 @@ class Runner:
                 csrc = f"(SObj {cnat(src[1])})"
             n = int(np.size(val)) * (2 if kind == "vis" else 1)
             mm = mmask_of(kind, mask2d, n)
-            cop = f"OConstruct {csrc} {cmask(mm)} {cbool(is_native)} {cbool(sn)}"
+            norm = bool(s.get("normalize"))
+            via = s.get("via", "ctor")
+            cnorm = "None"
+            if norm:
+                # the pure value of the normalisation: measured on private copies (twins) of the source, never on the source
+                q = self.qid("kernel", sn, NORMQ)
+                cnorm = f"(Some {cnat(q)})"
+                def private():
+                    if src[0] == "in": return np.array(val)
+                    return twin(so.kind, so.mask2d, so.native, self.obj_contents(so), np.shape(arr_of(so.kind, so.real)))
+                try:
+                    pre = enc_arr(make(kind, private(), mask2d, sn)._array)
+                    post = enc_arr(make(kind, private(), mask2d, sn, normalize=True)._array)
+                    self.table[(q, tuple(mm), tuple(pre))] = post
+                except Exception as e:   # noqa
+                    if type(e).__name__ not in SIZE_EXC: raise
+            cop = f"OConstruct {csrc} {cmask(mm)} {cbool(is_native)} {cbool(sn)} {cnorm}"
             try:
-                real = make(kind, val, mask2d, sn)
+                if via == "ctor": real = make(kind, val, mask2d, sn, normalize=norm, share=bool(s.get("share")))
+                elif via == "native": real = val.native              # Array2D / Grid2D / VectorYX2D (values=self, mask=self.mask, store_native=True)
+                elif via == "slim": real = val.slim
+                elif via == "normalized": real = val.normalized      # Kernel2D(values=self, mask=self.mask, normalize=True)
+                else: raise ValueError(via)
             except Exception as e:   # noqa
                 if type(e).__name__ in SIZE_EXC: return cop, ("raise", "ArrayException")
                 raise
@@ -485,6 +576,14 @@ TALLY = {}
 def tally(k, n=1): TALLY[k] = TALLY.get(k, 0) + n
 
 def run_hist(inp):
+    g = inp.get("geom") or {}
+    ps = g.get("ps", 1.0)
+    GEOM["ps"] = tuple(ps) if isinstance(ps, list) else ps
+    GEOM["origin"] = tuple(g.get("origin", (0.0, 0.0)))
+    _SHARED_MASKS.clear()
+    try: return run_hist0(inp)
+    finally: GEOM["ps"], GEOM["origin"] = 1.0, (0.0, 0.0); _SHARED_MASKS.clear()
+def run_hist0(inp):
     r = Runner()
     aux_before = None
     out = []
@@ -624,8 +723,40 @@ def build_graph(cfg):
         reg = aa.reg.Constant(coefficient=coeff) if coeff is not None else None
         mappers.append(aa.Mapper(mapper_grids=mg, over_sampler=grid.over_sampler, regularization=reg))
     settings = aa.SettingsInversion(use_w_tilde=cfg["w_tilde"], use_positive_only_solver=cfg.get("positive", False),
-                                    no_regularization_add_to_curvature_diag_value=1.0)
-    return ds, mappers, settings, [m, dv, nv, pv, mask, data, noise, psf, osd, settings]
+                                    no_regularization_add_to_curvature_diag_value=1.0,
+                                    force_edge_pixels_to_zeros=cfg.get("force_edge", True),
+                                    force_edge_image_pixels_to_zeros=cfg.get("edge_image", False),
+                                    use_w_tilde_numpy=cfg.get("w_tilde_numpy", False), use_source_loop=cfg.get("source_loop", False))
+    owned = [m, dv, nv, pv, mask, data, noise, psf, osd, settings]
+    # linear objects that are not mappers (unregularized unless stated), placed before and / or after the mappers
+    before, after = [], []
+    for f in cfg.get("funcs", []):
+        cols = np.array(f["cols"], dtype=float).reshape(int((~m).sum()), -1)
+        fo = func_list_cls()(grid=aa.Grid2D.from_mask(mask=mask), columns=cols,
+                             regularization=aa.reg.Constant(coefficient=f["coeff"]) if f.get("coeff") else None)
+        (before if f["pos"] == "before" else after).append(fo)
+        owned.append(cols)
+    cfg_objs = before + mappers + after
+    mappers = MapperList(mappers); mappers.objs = cfg_objs
+    return ds, mappers, settings, owned
+
+class MapperList(list):
+    """the mappers of a graph; .objs is the full linear_obj_list (non-mapper objects before / after them)"""
+    objs = None
+_FUNC_CLS = []
+def func_list_cls():
+    if not _FUNC_CLS:
+        from autoarray.inversion.linear_obj.func_list import AbstractLinearObjFuncList
+        class HFuncList(AbstractLinearObjFuncList):
+            """a linear object whose mapping matrix is given column by column (stands for a list of light-profile images)"""
+            def __init__(self, grid, columns, regularization=None):
+                super().__init__(grid=grid, regularization=regularization); self._columns = columns
+            @property
+            def params(self): return self._columns.shape[1]
+            @property
+            def mapping_matrix(self): return self._columns
+        _FUNC_CLS.append(HFuncList)
+    return _FUNC_CLS[0]
 
 PRELOADABLE = {"curvature_matrix": "curvature_matrix", "curvature_matrix_mapper_diag": "_curvature_matrix_mapper_diag",
                "regularization_matrix": "regularization_matrix", "operated_mapping_matrix": "operated_mapping_matrix"}
@@ -646,7 +777,7 @@ def make_inversion(cfg, preload_F=None):
         pre = aa.Preloads(**pk)
         kw["preloads"] = pre
         owned = owned + [pre] + list(pk.values())
-    inv = aa.Inversion(dataset=ds, linear_obj_list=mappers, settings=settings, **kw)
+    inv = aa.Inversion(dataset=ds, linear_obj_list=mappers.objs, settings=settings, **kw)
     return inv, ds, mappers, owned
 
 def bits(a):
@@ -671,7 +802,7 @@ def run_inv(inp):
     kw = {}
     if P is not None: kw["preloads"] = aa.Preloads(curvature_matrix=P)
     if PD is not None: kw["preloads"] = aa.Preloads(curvature_matrix_mapper_diag=PD)
-    inv = aa.Inversion(dataset=ds, linear_obj_list=mappers, settings=settings, **kw)
+    inv = aa.Inversion(dataset=ds, linear_obj_list=mappers.objs, settings=settings, **kw)
     owned_fp = leaves(owned)
     out = []
     for q in inp["qs"]:
@@ -794,6 +925,629 @@ def run_dsderive(inp):
     if bad: res["detail"] = "; ".join(bad[:4])
     return res
 
+# ----------------------------------------------------------------------------- object REUSE: shared parts, several inversions
+def build_reuse(inp, only=None):
+    """datasets (same mask / psf, own data and noise), mappers, ONE settings object, optionally ONE Preloads object, and the
+    inversions listed in inp["invs"], each naming the dataset and the mappers it uses.  only=k: inversion k alone, built from parts
+    nobody else uses (the twin)."""
+    aa = import_aa()
+    base = inp["base"]
+    invs = inp["invs"] if only is None else [inp["invs"][only]]
+    dss, mps, owned = {}, {}, []
+    def cfg_for(d, mlist):
+        return dict(base, data=inp["datasets"][d]["data"], noise=inp["datasets"][d]["noise"], psf=inp["datasets"][d].get("psf", PSF),
+                    mappers=[inp["mappers"][k] for k in mlist])
+    settings = None
+    pre = None
+    out = []
+    for iv in invs:
+        d = iv["ds"]
+        ds, mappers, st, own = build_graph(cfg_for(d, iv["mappers"]))
+        owned += own
+        if settings is None: settings = st
+        if d in dss: ds = dss[d]
+        else: dss[d] = ds
+        objs = []
+        for k, mp in zip(iv["mappers"], mappers):
+            if k not in mps: mps[k] = mp
+            objs.append(mps[k])
+        kw = {}
+        if inp.get("preload"):
+            if pre is None:
+                # the caller's precomputed matrices: they depend on the mappers (and the psf) only, so one Preloads object may
+                # legitimately serve every inversion that uses the same mappers
+                src = aa.Inversion(dataset=build_graph(cfg_for(d, iv["mappers"]))[0], linear_obj_list=build_graph(cfg_for(d, iv["mappers"]))[1],
+                                   settings=aa.SettingsInversion(use_w_tilde=base["w_tilde"], no_regularization_add_to_curvature_diag_value=1.0))
+                arrs = {n: np.array(getattr(src, n)) for n in inp["preload"]}
+                pre = aa.Preloads(**arrs); pre._for = list(iv["mappers"])
+                owned += [pre] + list(arrs.values())
+            if pre._for == list(iv["mappers"]): kw["preloads"] = pre
+        out.append((aa.Inversion(dataset=ds, linear_obj_list=objs, settings=settings, **kw), ds, objs))
+    return out, owned
+_REUSE_TWINS = {}
+def run_reuse(inp):
+    tw = _REUSE_TWINS.setdefault(str(sorted((k, str(v)) for k, v in inp.items() if k != "reads")), {})
+    built, owned = build_reuse(inp)
+    from autoarray.inversion.inversion import factory
+    singletons = [factory.inversion_from.__defaults__, factory.inversion_imaging_from.__defaults__]
+    fp0 = leaves([owned, singletons])
+    bad = []
+    for k, who, name in inp["reads"]:
+        if (k, who, name) not in tw:
+            tb, _ = build_reuse(inp, only=k)
+            tw[(k, who, name)] = graph_read(tb[0], who, name)
+        if graph_read(built[k], who, name) != tw[(k, who, name)]:
+            bad.append(f"inversion {k}: {who}.{name} differs from the twin built from unshared parts")
+    if inp.get("scaled"):
+        # metamorphic oracle that does not go through a twin (a cache shared by ALL objects would serve the twin the same stale
+        # value): datasets 0 and 1 hold data d and 2 d with one noise map, inversions 0 and 1 use the same mappers, so the data
+        # vector of the second is exactly twice the first's (every term of the sum doubles exactly) and the curvature matrices agree
+        try:
+            d0, d1 = np.array(built[0][0].data_vector), np.array(built[1][0].data_vector)
+            f0, f1 = np.array(built[0][0].curvature_matrix), np.array(built[1][0].curvature_matrix)
+            if not np.array_equal(2.0 * d0, d1): bad.append("data_vector of the inversion on 2 x data is not twice the data_vector on data")
+            if not np.array_equal(f0, f1): bad.append("curvature_matrix differs between two datasets with one noise map")
+        except Exception as e:   # noqa
+            bad.append("scaled pair: " + type(e).__name__)
+    ch = leaves_changed(fp0, leaves([owned, singletons]))
+    if ch: bad.append("caller-owned input changed: " + ",".join(ch[:4]))
+    shared = "+".join(x for x, c in (("dataset", len({iv["ds"] for iv in inp["invs"]}) < len(inp["invs"])),
+                                     ("mapper", len({tuple(iv["mappers"]) for iv in inp["invs"]}) < len(inp["invs"])),
+                                     ("preloads", bool(inp.get("preload")))) if c)
+    res = {"coq": None, "out": {"reads": len(inp["reads"]), "bad": bad[:5]}, "py_ok": not bad, "nontrivial": len(inp["reads"]) >= 3,
+           "kind": "reuse:" + (shared or "settings")}
+    if bad: res["detail"] = "; ".join(bad[:5])
+    return res
+def with_sweeps(rng, prefix, universe):
+    """a random prefix, then every quantity of [universe] once in a random order and once more in the reverse order: for every
+    ordered pair (X, Y) of quantities some read of Y follows a read of X"""
+    order = [list(u) for u in universe]; rng.shuffle(order)
+    return [list(p) for p in prefix] + order + order[::-1]
+REUSE_KEY_Q = ["operated_mapping_matrix", "data_vector", "curvature_matrix", "regularization_matrix", "curvature_reg_matrix",
+               "reconstruction", "mapped_reconstructed_data", "log_det_curvature_reg_matrix_term"]
+def gen_reuse(rng):
+    if rng.random() < 0.75: return gen_reuse_scenario(rng)
+    return gen_reuse_random(rng)
+def gen_reuse_scenario(rng):
+    """the three ways parts are shared downstream: one mapper set fitted to two datasets (data, noise, psf differ); one dataset
+    fitted with two mapper sets whose matrices have ONE shape and different contents; the same fit on d and on 2 d"""
+    H, W = rng.randint(5, 6), rng.randint(5, 6)
+    base = {"shape": [H, W], "holes": [], "w_tilde": rng.random() < 0.4, "positive": False, "sub": 1}
+    mk = lambda: {"data": [rng.randint(0, 20) for _ in range(H * W)], "noise": [rng.choice([1, 2, 4]) for _ in range(H * W)]}
+    mappers = [[3, 3, rng.choice([1.0, 2.0])], [2, 2, 1.0], [3, 2, 4.0], [2, 3, 4.0]]
+    sc = rng.choice(["two-datasets", "two-mapper-sets", "scaled"])
+    scaled = False
+    if sc == "two-datasets":
+        datasets = [mk(), mk()]
+        if rng.random() < 0.5: datasets[1]["psf"] = [[0.0, 1.0, 0.0], [2.0, 4.0, 1.0], [0.0, 1.0, 1.0]]
+        ms = rng.choice([[0], [1], [0, 1], [2]])
+        invs = [{"ds": 0, "mappers": ms}, {"ds": 1, "mappers": list(ms)}]
+    elif sc == "two-mapper-sets":
+        datasets = [mk()]
+        a, b = rng.choice([([2], [3]), ([3], [2]), ([0, 2], [0, 3]), ([2], [3])])
+        invs = [{"ds": 0, "mappers": a}, {"ds": 0, "mappers": b}]
+    else:
+        d0 = mk(); datasets = [d0, {"data": [2 * x for x in d0["data"]], "noise": list(d0["noise"])}]
+        ms = rng.choice([[0], [0, 1], [2]])
+        invs = [{"ds": 0, "mappers": ms}, {"ds": 1, "mappers": list(ms)}]; scaled = True
+    pre = rng.choice([None, None, ["regularization_matrix"]]) if sc != "two-mapper-sets" else None
+    inp = {"op": "reuse", "base": base, "datasets": datasets, "mappers": mappers, "invs": invs, "preload": pre, "scaled": scaled}
+    uni = [[k, "inv", q] for k in (0, 1) for q in REUSE_KEY_Q] + [[k, "mapper0", "mapping_matrix"] for k in (0, 1)]
+    inp["reads"] = with_sweeps(rng, [rng.choice(uni) for _ in range(rng.randint(0, 3))], uni)
+    return inp
+def gen_reuse_random(rng):
+    H, W = rng.randint(5, 6), rng.randint(5, 6)
+    base = {"shape": [H, W], "holes": [], "w_tilde": rng.random() < 0.5, "positive": rng.random() < 0.2, "sub": 1}
+    nd = rng.choice([1, 2, 2])
+    datasets = [{"data": [rng.randint(0, 20) for _ in range(H * W)], "noise": [rng.choice([1, 2, 4]) for _ in range(H * W)]} for _ in range(nd)]
+    # [3, 2] and [2, 3] meshes: mapping matrices of one shape and different contents
+    mappers = [[3, 3, rng.choice([1.0, 2.0])], [2, 2, 1.0], [3, 2, 4.0], [2, 3, 4.0]]
+    invs = []
+    for _ in range(rng.randint(2, 3)):
+        invs.append({"ds": rng.randrange(nd), "mappers": rng.choice([[0], [0], [1], [0, 1], [2], [3], [2], [3]])})
+    scaled = nd == 2 and rng.random() < 0.5
+    psf2 = [[0.0, 1.0, 0.0], [2.0, 4.0, 1.0], [0.0, 1.0, 1.0]]
+    if scaled:
+        datasets[1] = {"data": [2 * x for x in datasets[0]["data"]], "noise": list(datasets[0]["noise"])}
+        invs[0]["ds"], invs[1]["ds"] = 0, 1; invs[1]["mappers"] = list(invs[0]["mappers"])
+        base["positive"] = False
+    elif nd == 2 and rng.random() < 0.5: datasets[1]["psf"] = psf2
+    pre = rng.choice([None, None, ["regularization_matrix"], ["operated_mapping_matrix"]])
+    if pre == ["operated_mapping_matrix"] and any("psf" in d for d in datasets): pre = ["regularization_matrix"]   # it depends on the psf
+    inp = {"op": "reuse", "base": base, "datasets": datasets, "mappers": mappers, "invs": invs, "preload": pre, "scaled": scaled}
+    reads = []
+    for _ in range(rng.randint(4, 12)):
+        k = rng.randrange(len(invs))
+        w = rng.choice(["inv"] * 5 + ["mapper0", "ds", "grids"])
+        reads.append([k, w, rng.choice(GRAPH_Q["mapper" if w.startswith("mapper") else w])])
+    inp["reads"] = reads
+    return inp
+
+# ----------------------------------------------------------------------------- read -> user edits in place -> re-read
+EDIT_Q = {"array": KINDS["array"].plain + ["in_counts"], "kernel": KINDS["kernel"].plain, "grid": KINDS["grid"].plain + ["is_uniform"],
+          "vector": KINDS["vector"].plain, "vis": KINDS["vis"].plain + ["amplitudes", "phases"],
+          "mask": KINDS["mask"].plain + ["circular_radius", "native_for_slim", "edge", "unmasked_grid"],
+          "dataset": ["signal_to_noise_map", "signal_to_noise_max", "data", "noise_map"]}
+def edit_read(kind, obj, name):
+    try:
+        if name == "native_for_slim": return enc_val(obj.derive_indexes.native_for_slim)
+        if name == "edge": return enc_val(obj.derive_mask.edge)
+        if name == "unmasked_grid": return enc_val(obj.derive_grid.unmasked)
+        return enc_val(getattr(obj, name))
+    except Exception as e:   # noqa
+        return exc_code(e)
+def run_edit(inp):
+    """construct from the caller's array; read; the USER assigns into the object (obj[key] = value: documented numpy-style use);
+    read again: every quantity that was not read before the edit must be the one of a freshly built object holding the edited
+    contents (a quantity read before the edit may be a cached_property of the present code: it is only required to be stable),
+    and the caller's array must still hold what it held (the constructor copied it)."""
+    aa = import_aa()
+    kind, mask2d, sn = inp["kind"], inp["mask"], bool(inp["store_native"])
+    base = "array" if kind == "dataset" else kind
+    nd = decode(inp["v"], base, inp["shape"])
+    nd0 = nd.copy()
+    obj = make(base, nd, mask2d, sn)
+    arr_obj = obj
+    if kind == "dataset": obj = make_dataset(arr_obj)
+    cached = set(KINDS[kind].cached) | {"is_uniform", "amplitudes", "phases", "circular_radius"}
+    bad = []
+    seen = set()
+    for q in inp["pre"]:
+        edit_read(kind, obj, q); seen.add(q)
+    if inp.get("derive"):
+        # the user edits an object DERIVED from this one: the source (and the caller's array) must not notice
+        how = inp["derive"]
+        src = obj if kind == "dataset" else arr_obj
+        try:
+            if how == "native": der = src.native
+            elif how == "slim": der = src.slim
+            elif how == "copy": der = src.copy()
+            elif how == "normalized": der = src.normalized
+            elif how == "flipped": der = src.flipped
+            elif how == "trim": der = src.trimmed_after_convolution_from(kernel_shape=(3, 3))
+            elif how == "pad": der = src.padded_before_convolution_from(kernel_shape=(3, 3))
+            elif how == "resize": der = src.resized_from(new_shape=(len(mask2d) + 2, len(mask2d[0]) + 1))
+            elif how == "edge": der = src.derive_mask.edge
+            elif how == "invert": der = src.invert()
+            elif how == "neg": der = -src
+            else: raise ValueError(how)
+            target = der.data if kind == "dataset" else der
+            target[(0,) * np.ndim(target._array)] = True if kind == "mask" else (complex(7, -7) if kind == "vis" else 77.0)
+        except Exception as e:   # noqa  (a derivation that this object does not support: nothing was edited)
+            if isinstance(e, ValueError) and str(e) == how: raise
+    for (key, val) in inp["edits"]:
+        k = tuple(key) if len(key) > 1 else key[0]
+        if kind == "mask": arr_obj[k] = bool(val)
+        elif kind == "vis": arr_obj[k] = complex(val, -val)
+        else: arr_obj[k] = float(val)
+    contents = enc_arr(arr_of(base, arr_obj))
+    t = twin(kind, mask2d, sn, contents, np.shape(arr_of(base, arr_obj)))
+    for q in inp["post"]:
+        got = edit_read(kind, obj, q)
+        if q in seen and q in cached: continue
+        if got != edit_read(kind, t, q): bad.append(f"{kind}.{q} after an in-place edit is not the quantity of the edited contents")
+    if kind != "vis" and not np.array_equal(nd, nd0, equal_nan=True):      # Visibilities(ndarray) stores the caller's array by design
+        bad.append("the caller's array changed when the constructed object was edited")
+    res = {"coq": None, "out": {"bad": bad[:4]}, "py_ok": not bad, "nontrivial": bool(inp["pre"]) and (bool(inp["edits"]) or bool(inp.get("derive"))),
+           "kind": "edit:" + kind + (":derived-" + inp["derive"] if inp.get("derive") else "")}
+    if bad: res["detail"] = "; ".join(bad[:4])
+    return res
+def gen_edit(rng):
+    kind = rng.choice(["array", "array", "grid", "mask", "vis", "kernel", "vector", "dataset", "dataset"])
+    H, W = (rng.randint(3, 5), rng.randint(3, 5))
+    mask = rand_mask(rng, H, W, p=rng.choice([0.0, 0.2]), border=False)
+    if kind == "dataset": H, W = 5, rng.randint(5, 6); mask = rand_mask(rng, H, W, p=0.0, border=True)
+    per = 2 if kind in ("grid", "vector") else 1
+    native = rng.random() < 0.5
+    sn = rng.random() < 0.5
+    if kind == "vis":
+        n = rng.randint(2, 5); shape = [n]; v = [rng.choice([-1, 1]) * rng.randint(1, 9) for _ in range(2 * n)]; native = sn = False
+    elif kind == "mask":
+        shape = [H, W]; v = [int(b) for r in mask for b in r]; native = sn = True
+    else:
+        shape = ([H, W] if native else [count_false(mask)]) + ([2] if per == 2 else [])
+        v = [rng.randint(1, 9) for _ in range(int(np.prod(shape)))]
+    # the edited entry: an unmasked pixel of the stored array
+    pts = [(y, x) for y in range(H) for x in range(W) if not mask[y][x]]
+    edits = []
+    for _ in range(rng.randint(1, 2)):
+        if kind == "vis": key = [rng.randrange(shape[0])]
+        elif kind == "mask": key = list(rng.choice([(y, x) for y in range(H) for x in range(W)]))
+        elif sn: key = list(rng.choice(pts)) + ([rng.randrange(2)] if per == 2 else [])
+        else: key = [rng.randrange(len(pts))] + ([rng.randrange(2)] if per == 2 else [])
+        edits.append([key, rng.randint(0, 1) if kind == "mask" else rng.randint(10, 30)])
+    qs = EDIT_Q[kind]
+    pre = rng.sample(qs, rng.randint(1, min(4, len(qs))))
+    post = sorted(set(pre[:2] + rng.sample(qs, rng.randint(1, min(4, len(qs))))))
+    derive = None
+    if rng.random() < 0.5:
+        derive = rng.choice({"array": ["native", "slim", "copy", "trim", "pad", "resize", "neg"], "kernel": ["native", "slim", "copy", "normalized"],
+                             "grid": ["native", "slim", "copy", "flipped", "neg"], "vector": ["native", "slim", "copy"], "vis": ["copy", "neg"],
+                             "mask": ["copy", "edge", "invert"], "dataset": ["trim"]}[kind])
+        edits = []        # only the derived object is edited: every quantity of the source is compared with the twin of its unchanged contents
+    return {"op": "edit", "kind": kind, "mask": mask, "store_native": sn, "shape": shape, "v": v, "pre": pre, "edits": edits, "post": post, "derive": derive}
+
+# ----------------------------------------------------------------------------- fits: FitImaging -> dataset -> inversion
+FIT_Q = ["data", "noise_map", "model_data", "signal_to_noise_map", "residual_map", "normalized_residual_map", "chi_squared_map",
+         "chi_squared", "noise_normalization", "log_likelihood", "log_likelihood_with_regularization", "log_evidence", "figure_of_merit",
+         "residual_flux_fraction_map", "reduced_chi_squared", "grids", "mask"]
+_FIT_CLS = []
+def fit_cls():
+    if not _FIT_CLS:
+        aa = import_aa()
+        from autoconf import cached_property
+        class HFit(aa.FitImaging):
+            """the way FitImaging is specialised downstream: the model image is the inversion's reconstruction of the data"""
+            def __init__(self, dataset, linear_obj_list, settings, preloads=None, **kw):
+                super().__init__(dataset=dataset, **kw)
+                self._objs, self._settings, self._pre = linear_obj_list, settings, preloads
+            @cached_property
+            def inversion(self):
+                if self._objs is None: return None
+                kw = {} if self._pre is None else {"preloads": self._pre}
+                return import_aa().Inversion(dataset=self.dataset, linear_obj_list=self._objs, settings=self._settings, **kw)
+            @property
+            def model_data(self):
+                if self._objs is None: return self._settings            # a fit of a given model image (no inversion)
+                return self.inversion.mapped_reconstructed_data
+        _FIT_CLS.append(HFit)
+    return _FIT_CLS[0]
+def build_fit(cfg):
+    aa = import_aa()
+    ds, mappers, settings, owned = build_graph(cfg)
+    dm = aa.DatasetModel(background_sky_level=cfg.get("sky", 0.0), grid_offset=tuple(cfg.get("offset", (0.0, 0.0))))
+    if cfg.get("model") is not None:
+        mv = np.array(cfg["model"], dtype=float).reshape(cfg["shape"])
+        model = aa.Array2D(values=mv, mask=ds.mask, store_native=bool(cfg.get("native", False)))
+        fit = fit_cls()(dataset=ds, linear_obj_list=None, settings=model, use_mask_in_fit=cfg.get("use_mask", False), dataset_model=dm)
+        owned = owned + [mv, model]
+    else:
+        fit = fit_cls()(dataset=ds, linear_obj_list=mappers.objs, settings=settings, use_mask_in_fit=False, dataset_model=dm)
+    return fit, ds, mappers, owned + [dm]
+def fit_read(parts, who, name):
+    fit, ds, mappers = parts
+    if who == "fit":
+        try:
+            v = getattr(fit, name)
+            if name == "grids": return str(view_grids(v))
+            return str(enc_val(v))
+        except Exception as e:   # noqa
+            return "EXC " + type(e).__name__
+    if who == "inv" and fit.inversion is None: return "no inversion"
+    return graph_read((fit.inversion, ds, mappers), who, name)
+_FIT_TWINS = {}
+def run_fit(inp):
+    cfg = inp["cfg"]
+    tw = _FIT_TWINS.setdefault(str(sorted(cfg.items())), {})
+    fit, ds, mappers, owned = build_fit(cfg)
+    fp0 = leaves(owned)
+    bad = []
+    for who, name in inp["reads"]:
+        if (who, name) not in tw:
+            tf, tds, tm, _ = build_fit(cfg)
+            tw[(who, name)] = fit_read((tf, tds, tm), who, name)
+        if fit_read((fit, ds, mappers), who, name) != tw[(who, name)]: bad.append(f"{who}.{name} differs from the never-read twin")
+    ch = leaves_changed(fp0, leaves(owned))
+    if ch: bad.append("caller-owned input changed: " + ",".join(ch[:4]))
+    res = {"coq": None, "out": {"reads": len(inp["reads"]), "bad": bad[:5]}, "py_ok": not bad, "nontrivial": len(inp["reads"]) >= 3,
+           "kind": "fit:" + (type(fit.inversion).__name__ if cfg.get("model") is None else "given-model" + (":masked" if cfg.get("use_mask") else ""))}
+    if bad: res["detail"] = "; ".join(bad[:5])
+    return res
+def gen_fit(rng):
+    cfg = rand_cfg(rng)
+    cfg["preloads"] = []
+    cfg["sky"] = rng.choice([0.0, 0.0, 1.5]); cfg["offset"] = rng.choice([[0.0, 0.0], [0.0, 0.0], [0.5, -0.25]])
+    if rng.random() < 0.3:
+        # a fit of a given model image; natively stored data go with use_mask_in_fit (the masked fit_util functions take 2D arrays;
+        # the inversions take slim data only, so the inversion-based fits below are slim and unmasked-in-fit)
+        cfg["native"] = rng.random() < 0.7; cfg["use_mask"] = cfg["native"] and rng.random() < 0.7
+        cfg["model"] = [rng.randint(0, 20) for _ in range(cfg["shape"][0] * cfg["shape"][1])]
+        cfg["mappers"] = []; cfg["funcs"] = []
+    reads = []
+    for _ in range(rng.randint(4, 14)):
+        w = rng.choice(["fit"] * 6 + ["inv"] * 3 + ["ds", "grids", "mapper0"])
+        reads.append([w, rng.choice(FIT_Q if w == "fit" else GRAPH_Q["mapper" if w.startswith("mapper") else w])])
+    if rng.random() < 0.5:
+        reads = with_sweeps(rng, reads[:3], [["fit", q] for q in FIT_Q] + [["inv", q] for q in REUSE_KEY_Q] + [["ds", q] for q in GRAPH_Q["ds"]])
+    return {"op": "fit", "cfg": cfg, "reads": reads}
+
+# ----------------------------------------------------------------------------- triangulation meshes (Delaunay / Voronoi)
+MESH_Q = {
+    "mesh": ["voronoi_pixel_areas", "voronoi_pixel_areas_for_split", "split_cross", "areas_for_magnification", "edge_pixel_list",
+             "neighbors", "pixels", "interp"],
+    "mapper": ["mapping_matrix", "pix_sub_weights", "pix_sub_weights_split_cross", "pix_indexes_for_sub_slim_index",
+               "pix_sizes_for_sub_slim_index", "pix_weights_for_sub_slim_index", "regularization_matrix", "edge_pixel_list",
+               "neighbors", "params", "unique_mappings"],
+    "valued": ["magnification_via_mesh_from", "magnification_via_interpolation_from", "mapped_reconstructed_image_from",
+               "values_masked", "max_pixel_centre", "interp", "max_pixel_list_from"],
+    "inv": ["curvature_matrix", "regularization_matrix", "curvature_reg_matrix", "reconstruction", "mapped_reconstructed_image",
+            "regularization_term", "log_det_regularization_matrix_term", "data_vector"],
+}
+def mesh_points(cfg):
+    return np.array(cfg["points"], dtype=float).reshape(-1, 2)
+def build_mesh_graph(cfg):
+    """mask + image-plane grid + a Delaunay / Voronoi mesh from the caller's points + mapper + valued mapper + inversion"""
+    aa = import_aa()
+    H, W = cfg["shape"]
+    m = np.ones((H, W), bool); m[1:H - 1, 1:W - 1] = False
+    for (y, x) in cfg.get("holes", []): m[y, x] = True
+    mask = aa.Mask2D(mask=m, pixel_scales=1.0)
+    grid = aa.Grid2D.from_mask(mask=mask, over_sampling=aa.OverSamplingUniform(sub_size=1))
+    pts = mesh_points(cfg)
+    cls = aa.Mesh2DDelaunay if cfg["kind"] == "delaunay" else aa.Mesh2DVoronoi
+    mesh = cls(values=pts)
+    mg = aa.MapperGrids(mask=mask, source_plane_data_grid=grid, source_plane_mesh_grid=mesh)
+    reg = {"constant": lambda: aa.reg.Constant(coefficient=2.0), "split": lambda: aa.reg.ConstantSplit(coefficient=2.0),
+           "none": lambda: None}[cfg["reg"]]()
+    mapper = aa.Mapper(mapper_grids=mg, over_sampler=aa.OverSamplerUniform(mask=mask, sub_size=1), regularization=reg)
+    vals = np.array(cfg["values"], dtype=float)
+    pm = None if cfg.get("pixel_mask") is None else np.array(cfg["pixel_mask"], dtype=bool)
+    valued = aa.MapperValued(mapper=mapper, values=vals, mesh_pixel_mask=pm)
+    dv = np.array(cfg["data"], dtype=float).reshape(H, W)
+    nv = np.full((H, W), 2.0)
+    data = aa.Array2D(values=dv, mask=mask); noise = aa.Array2D(values=nv, mask=mask)
+    pv = np.array(PSF); psf = aa.Kernel2D.no_mask(values=pv, pixel_scales=1.0)
+    osd = aa.OverSamplingDataset(uniform=aa.OverSamplingUniform(sub_size=1), pixelization=aa.OverSamplingUniform(sub_size=1))
+    ds = aa.Imaging(data=data, noise_map=noise, psf=psf, over_sampling=osd)
+    settings = aa.SettingsInversion(use_w_tilde=bool(cfg.get("w_tilde", False)), no_regularization_add_to_curvature_diag_value=1.0)
+    inv = aa.Inversion(dataset=ds, linear_obj_list=[mapper], settings=settings)
+    owned = [m, pts, vals, pm, dv, nv, pv, mask, grid, data, noise, psf, osd, settings]
+    return {"mesh": mesh, "mapper": mapper, "valued": valued, "inv": inv}, owned
+def mesh_read(parts, who, name, cfg):
+    try:
+        t = parts[who]
+        if name == "interp":
+            v = t.interpolated_array_from(values=np.array(cfg["values"], dtype=float), shape_native=(5, 4)) if who == "mesh" \
+                else t.interpolated_array_from(shape_native=(5, 4))
+        elif name == "magnification_via_interpolation_from": v = t.magnification_via_interpolation_from(shape_native=(7, 6))
+        elif name == "max_pixel_list_from": v = t.max_pixel_list_from(total_pixels=3)
+        elif name.endswith("_from"): v = getattr(t, name)()
+        else: v = getattr(t, name)
+        if name == "neighbors": v = [np.asarray(v), getattr(v, "sizes", None)]
+        if name in ("pix_sub_weights", "pix_sub_weights_split_cross"): v = [v.mappings, v.sizes, v.weights]
+        if name == "unique_mappings": v = [v.data_to_pix_unique, v.data_weights, v.pix_lengths]
+        try: return str(enc_val(v))
+        except TypeError: return str(sorted(leaves(v, "v").items()))
+    except Exception as e:   # noqa
+        return "EXC " + type(e).__name__
+_MESH_TWINS = {}
+def run_mesh(inp):
+    cfg = inp["cfg"]
+    tw = _MESH_TWINS.setdefault(str(sorted(cfg.items())), {})
+    parts, owned = build_mesh_graph(cfg)
+    fp0 = leaves(owned)
+    bad = []; nexc = 0
+    for who, name in inp["reads"]:
+        if (who, name) not in tw:
+            tparts, _ = build_mesh_graph(cfg)
+            tw[(who, name)] = mesh_read(tparts, who, name, cfg)
+        got = mesh_read(parts, who, name, cfg)
+        nexc += got.startswith("EXC")
+        if got != tw[(who, name)]: bad.append(f"{who}.{name} differs from the never-read twin")
+    ch = leaves_changed(fp0, leaves(owned))
+    if ch: bad.append("caller-owned input changed: " + ",".join(ch[:4]))
+    tally("mesh reads raising (canonical exception)", nexc); tally("mesh reads", len(inp["reads"]))
+    res = {"coq": None, "out": {"reads": len(inp["reads"]), "bad": bad[:5]}, "py_ok": not bad, "nontrivial": len(inp["reads"]) >= 3,
+           "kind": "mesh:" + cfg["kind"] + ":" + cfg["reg"]}
+    if bad: res["detail"] = "; ".join(bad[:5])
+    return res
+def gen_mesh(rng):
+    H, W = rng.randint(5, 6), rng.randint(5, 6)
+    n = rng.randint(6, 11)
+    # points inside the image-plane extent, pairwise distinct, on a jittered lattice so that no three are collinear by accident;
+    # the convex-hull points own unbounded Voronoi cells (area -1): every mesh has edge cells
+    cells = [(y, x) for y in range(4) for x in range(4)]
+    rng.shuffle(cells)
+    pts = []
+    for (y, x) in cells[:n]:
+        pts += [round((1.5 - y) * (H - 2) / 4.0 + rng.uniform(-0.2, 0.2), 3), round((x - 1.5) * (W - 2) / 4.0 + rng.uniform(-0.2, 0.2), 3)]
+    kind = rng.choice(["delaunay", "voronoi"])
+    cfg = {"shape": [H, W], "holes": [], "kind": kind, "points": pts, "reg": rng.choice(["constant", "split", "split", "none"]),
+           "values": [rng.randint(1, 9) for _ in range(n)], "pixel_mask": rng.choice([None, [False] * n]),
+           "data": [rng.randint(0, 20) for _ in range(H * W)], "w_tilde": rng.random() < 0.3}
+    who = ["mesh"] * 5 + ["mapper"] * 3 + ["valued"] * 3 + ["inv"]
+    reads = []
+    for _ in range(rng.randint(4, 12)):
+        w = rng.choice(who)
+        reads.append([w, rng.choice(MESH_Q[w])])
+        if rng.random() < 0.2: reads.append(list(reads[-1]))
+    if rng.random() < 0.5:
+        reads = with_sweeps(rng, reads[:3], [[w, q] for w in ("mesh", "mapper", "valued") for q in MESH_Q[w]])
+    return {"op": "mesh", "cfg": cfg, "reads": reads}
+
+# ----------------------------------------------------------------------------- PART D: quantity graphs (KGraph)
+# node tables of the graphs of coq/Model/C11g.v [ginstance], in the same order: (owner object, attribute, kind)
+GI, GC, GP = "input", "cached", "plain"
+GNODES = {
+    "mesh": [("mesh", "_array", GI), ("mesh", "delaunay", GC), ("mesh", "voronoi", GC), ("mesh", "edge_pixel_list", GC),
+             ("mesh", "voronoi_pixel_areas", GP), ("mesh", "voronoi_pixel_areas_for_split", GC), ("mesh", "split_cross", GC),
+             ("mesh", "areas_for_magnification", GP), ("mesh", "neighbors", GC), ("mesh", "interp", GP),
+             ("mapper", "source_plane_data_grid", GI), ("mapper", "pix_sub_weights", GC), ("mapper", "pix_sub_weights_split_cross", GP),
+             ("mapper", "mapping_matrix", GC), ("mapper", "regularization_matrix", GP), ("valued", "magnification_via_mesh_from", GP)],
+    "fit": [("ds", "data", GI), ("ds", "noise_map", GI), ("ds", "psf", GI), ("mapper", "source_plane_data_grid", GI),
+            ("ds", "grids", GC), ("ds", "convolver", GC), ("mapper", "pix_sub_weights", GC), ("mapper", "unique_mappings", GC),
+            ("mapper", "mapping_matrix", GC), ("inv", "mapping_matrix", GC), ("inv", "operated_mapping_matrix", GC),
+            ("inv", "data_vector", GC), ("inv", "curvature_matrix", GC), ("inv", "regularization_matrix", GC),
+            ("inv", "regularization_matrix_reduced", GC), ("inv", "curvature_reg_matrix", GC), ("inv", "curvature_reg_matrix_reduced", GC),
+            ("inv", "reconstruction", GC), ("inv", "reconstruction_reduced", GC), ("inv", "mapped_reconstructed_data_dict", GP),
+            ("inv", "mapped_reconstructed_data", GC), ("inv", "regularization_term", GC), ("inv", "log_det_curvature_reg_matrix_term", GC),
+            ("inv", "log_det_regularization_matrix_term", GC), ("fit", "residual_map", GP), ("fit", "chi_squared_map", GP),
+            ("fit", "chi_squared", GP), ("fit", "noise_normalization", GP), ("fit", "log_evidence", GP)],
+    "chain": [("ds", "data", GI), ("ds", "noise_map", GI), ("ds", "psf", GI), ("hold", "osd", GI), ("hold", "mask2", GI),
+              ("ds", "grids", GC), ("ds", "convolver", GC), ("ds", "w_tilde", GC), ("ds", "signal_to_noise_map", GP),
+              ("hold", "ds2", GC), ("ds2", "grids", GC), ("ds2", "convolver", GC), ("ds2", "data", GP), ("ds2", "noise_map.native", GP),
+              ("ds2", None, GP), ("hold", "ds3", GC), ("ds3", "noise_map", GP), ("ds3", "data", GP), ("ds3", "grids", GC),
+              ("ds3", "signal_to_noise_map", GP), ("ds2", "signal_to_noise_map", GP),
+              ("hold", "ds4", GC), ("ds4", "grids", GC), ("ds4", "data", GP), ("ds4", "signal_to_noise_map", GP)],
+    "interf": [("ds", "data", GI), ("ds", "noise_map", GI), ("ds", "uv_wavelengths", GI), ("mapper", "source_plane_data_grid", GI),
+               ("ds", "grids", GC), ("mapper", "pix_sub_weights", GC), ("mapper", "mapping_matrix", GC), ("inv", "mapping_matrix", GC),
+               ("inv", "operated_mapping_matrix", GC), ("inv", "data_vector", GC), ("inv", "curvature_matrix", GC),
+               ("inv", "regularization_matrix", GC), ("inv", "regularization_matrix_reduced", GC), ("inv", "curvature_reg_matrix", GC),
+               ("inv", "curvature_reg_matrix_reduced", GC), ("inv", "reconstruction", GC), ("inv", "reconstruction_reduced", GC),
+               ("inv", "mapped_reconstructed_data_dict", GP), ("inv", "mapped_reconstructed_data", GC),
+               ("inv", "mapped_reconstructed_image_dict", GP), ("inv", "mapped_reconstructed_image", GC), ("inv", "regularization_term", GC),
+               ("inv", "log_det_curvature_reg_matrix_term", GC), ("inv", "log_det_regularization_matrix_term", GC),
+               ("ds", "signal_to_noise_map", GP),
+               ("vis", "amplitudes", GC), ("ds", "amplitudes", GP), ("ds", "dirty_image", GP), ("ds", "dirty_noise_map", GP),
+               ("ds", "uv_distances", GP), ("ds", "w_tilde", GP), ("hold", "ds2", GC), ("ds2", "grids", GC), ("ds2", "amplitudes", GP)],
+}
+GNODES["wtilde"] = [("ds", "data", GI), ("ds", "noise_map", GI), ("ds", "psf", GI), ("mapper", "source_plane_data_grid", GI),
+                    ("ds", "convolver", GC), ("ds", "w_tilde", GI), ("mapper", "pix_sub_weights", GC), ("mapper", "unique_mappings", GC),
+                    ("mapper", "mapping_matrix", GC), ("inv", "w_tilde_data", GC), ("inv", "data_vector", GC), ("inv", "curvature_matrix", GC),
+                    ("inv", "regularization_matrix", GC), ("inv", "regularization_matrix_reduced", GC), ("inv", "curvature_reg_matrix", GC),
+                    ("inv", "curvature_reg_matrix_reduced", GC), ("inv", "reconstruction", GC), ("inv", "reconstruction_reduced", GC),
+                    ("inv", "mapped_reconstructed_data_dict", GP), ("inv", "mapped_reconstructed_data", GC), ("inv", "mapping_matrix", GC),
+                    ("inv", "operated_mapping_matrix", GC), ("inv", "regularization_term", GC), ("inv", "log_det_curvature_reg_matrix_term", GC),
+                    ("inv", "log_det_regularization_matrix_term", GC)]
+GINST = {0: "mesh", 1: "mesh", 2: "fit", 3: "chain", 4: "interf", 5: "wtilde"}
+class Holder:
+    """the user's variables: a derived dataset is bound when it is first asked for"""
+    def __init__(self, ds, osd, mask2): self.ds, self.osd, self.mask2 = ds, osd, mask2
+    def get(self, name):
+        if name not in self.__dict__:
+            if name == "ds2": self.ds2 = self.ds.apply_over_sampling(over_sampling=self.osd)
+            if name == "ds3": self.ds3 = self.get("ds2").apply_noise_scaling(mask=self.mask2, noise_value=64.0)
+            if name == "ds4": self.ds4 = self.ds.apply_mask(mask=self.mask2)
+        return self.__dict__[name]
+def build_chain(cfg):
+    aa = import_aa()
+    # the source dataset is itself a masked dataset made from an unmasked one (so that it can be masked again)
+    root, mappers, settings, owned = build_graph(dict(cfg, mappers=[], w_tilde=False, funcs=[], border0=True, holes=[]))
+    H, W = cfg["shape"]
+    m1 = np.ones((H, W), bool); m1[1:H - 1, 1:W - 1] = False
+    mask1 = aa.Mask2D(mask=m1, pixel_scales=1.0)
+    ds = root.apply_mask(mask=mask1)
+    osd = aa.OverSamplingDataset(uniform=aa.OverSamplingUniform(sub_size=2), pixelization=aa.OverSamplingUniform(sub_size=2))
+    m2 = np.array(cfg["mask2"], dtype=bool); mask2 = aa.Mask2D(mask=m2, pixel_scales=1.0)
+    return {"ds": ds, "hold": Holder(ds, osd, mask2)}, owned + [m1, mask1, osd, m2, mask2]
+def build_interf(cfg):
+    aa = import_aa()
+    H, W = cfg["shape"]
+    m = np.ones((H, W), bool); m[1:H - 1, 1:W - 1] = False
+    mask = aa.Mask2D(mask=m, pixel_scales=1.0)
+    vv = np.array(cfg["vis"], dtype=float).reshape(-1, 2); vis_nd = vv[:, 0] + 1j * vv[:, 1]
+    vis = aa.Visibilities(visibilities=vis_nd)
+    nn = np.array(cfg["vis_noise"], dtype=float).reshape(-1, 2); nm_nd = nn[:, 0] + 1j * nn[:, 1]
+    nm = aa.VisibilitiesNoiseMap(visibilities=nm_nd)
+    uv = np.array(cfg["uv"], dtype=float).reshape(-1, 2)
+    osd = aa.OverSamplingDataset(pixelization=aa.OverSamplingUniform(sub_size=1))
+    it = aa.Interferometer(data=vis, noise_map=nm, uv_wavelengths=uv, real_space_mask=mask, transformer_class=aa.TransformerDFT, over_sampling=osd)
+    # the mapper's grids come from a throw-away dataset, so that `it` itself has never been read
+    it0 = aa.Interferometer(data=vis, noise_map=nm, uv_wavelengths=uv.copy(), real_space_mask=mask, transformer_class=aa.TransformerDFT, over_sampling=osd)
+    grid = it0.grids.pixelization
+    osg = grid.over_sampler.over_sampled_grid
+    mesh = aa.Mesh2DRectangular.overlay_grid(grid=osg, shape_native=(3, 3))
+    mg = aa.MapperGrids(mask=mask, source_plane_data_grid=osg, source_plane_mesh_grid=mesh)
+    mapper = aa.Mapper(mapper_grids=mg, over_sampler=grid.over_sampler, regularization=aa.reg.Constant(coefficient=cfg.get("coeff", 1.0)))
+    settings = aa.SettingsInversion(use_w_tilde=cfg.get("w_tilde", True), no_regularization_add_to_curvature_diag_value=1.0)
+    inv = aa.Inversion(dataset=it, linear_obj_list=[mapper], settings=settings)      # through the factory (D12: settings stay as given)
+    osd2 = aa.OverSamplingDataset(pixelization=aa.OverSamplingUniform(sub_size=2))
+    return {"ds": it, "vis": vis, "mapper": mapper, "inv": inv, "hold": Holder(it, osd2, None)}, [m, vis_nd, nm_nd, uv, mask, vis, nm, osd, osd2, settings]
+def gbuild(inst, cfg):
+    if inst in (0, 1): return build_mesh_graph(cfg)
+    if inst in (2, 5):
+        fit, ds, mappers, owned = build_fit(cfg)
+        return {"fit": fit, "ds": ds, "mapper": mappers[0], "inv": fit.inversion}, owned
+    if inst == 3: return build_chain(cfg)
+    if inst == 4: return build_interf(cfg)
+    raise ValueError(inst)
+def gowner(parts, owner, bind=False):
+    if owner in ("ds2", "ds3", "ds4"):
+        hold = parts["hold"]
+        return hold.get(owner) if bind else hold.__dict__.get(owner)
+    return parts[owner]
+def gvalue(parts, node, cfg):
+    """the raw value a read of the node gives the user (exceptions propagate)"""
+    owner, name, kind = node
+    o = gowner(parts, owner, bind=True)
+    if owner == "hold" and name in ("ds2", "ds3", "ds4"):
+        d = o.get(name); return [d.data, d.noise_map, getattr(d.over_sampling.uniform, "sub_size", None), getattr(d.over_sampling.pixelization, "sub_size", None)]
+    if name == "noise_map.native": return o.noise_map.native
+    if name == "interp": return o.interpolated_array_from(values=np.array(cfg["values"], dtype=float), shape_native=(5, 4))
+    if name == "_array": return o._array
+    if owner == "hold": return getattr(o, name)
+    v = getattr(o, name)
+    if name == "neighbors": return [np.asarray(v), getattr(v, "sizes", None)]
+    if name in ("pix_sub_weights", "pix_sub_weights_split_cross"): return [v.mappings, v.sizes, v.weights]
+    if name == "magnification_via_mesh_from": return v()
+    if name == "unique_mappings": return [v.data_to_pix_unique, v.data_weights, v.pix_lengths]
+    return v
+def gencode(v, name):
+    if name == "grids": return view_grids(v)
+    if name == "convolver": return view_convolver(v)
+    if name == "w_tilde":
+        if hasattr(v, "w_matrix"): return enc_val(v.w_matrix) + enc_val(v.curvature_preload) + enc_val(v.dirty_image)
+        return view_w_tilde(v)
+    try: return enc_val(v)
+    except TypeError: return [zlib.crc32(repr(sorted((k, str(x)) for k, x in leaves(v, "v").items())).encode())]
+def gread_node(parts, node, cfg):
+    try: return digest(gencode(gvalue(parts, node, cfg), node[1]))
+    except Exception as e:   # noqa
+        return digest(exc_code(e))
+def gpresent(nodes, parts):
+    """node -> fingerprint of the value stored under it: cached_property entries present in the instance __dict__s, and the inputs"""
+    out = {}
+    for n, (owner, name, kind) in enumerate(nodes):
+        o = gowner(parts, owner)
+        if o is None or name is None: continue
+        if kind == GC and name in o.__dict__: out[n] = leaves(o.__dict__[name], "v") if owner != "hold" else {}
+        if kind == GI:
+            x = o._array if name == "_array" else getattr(o, name)
+            out[n] = leaves(x, "v")
+    return out
+_G_TWINS = {}
+def run_gcase(inp):
+    inst, cfg = inp["inst"], inp["cfg"]
+    nodes = GNODES[GINST[inst]]
+    tw = _G_TWINS.setdefault((inst, str(sorted(cfg.items()))), {})
+    for n, node in enumerate(nodes):
+        if n not in tw:
+            if node[1] is None: tw[n] = [0, 0]; continue
+            tparts, _ = gbuild(inst, cfg)
+            tw[n] = gread_node(tparts, node, cfg)
+    parts, owned = gbuild(inst, cfg)
+    fp0 = leaves(owned)
+    out = []
+    for n in inp["reads"]:
+        before = gpresent(nodes, parts)
+        v = gread_node(parts, nodes[n], cfg)
+        after = gpresent(nodes, parts)
+        filled = sorted(m for m in after if nodes[m][2] == GC)
+        changed = sorted(m for m in before if m in after and leaves_changed(before[m], after[m]))
+        out.append((v, filled, changed))
+    ch = leaves_changed(fp0, leaves(owned))
+    cnl = lambda l: clist([cnat(x) for x in l])
+    couts = clist([f"({carr(v)}, {cnl(f)}, {cnl(c)})" for v, f, c in out])
+    coq = f"(KGraph {cnat(inst)} {clist([carr(tw[n]) for n in range(len(nodes))])} {cnl(inp['reads'])} {couts})"
+    tally("graph-machine reads", len(inp["reads"]))
+    res = {"coq": coq, "out": {"reads": inp["reads"], "filled": [f for _, f, _ in out][-1:], "changed": [c for _, _, c in out if c]},
+           "py_ok": False if ch else None, "nontrivial": len(inp["reads"]) >= 2, "kind": "gcase:" + GINST[inst] + (":voronoi" if inst == 1 else "")}
+    if ch: res["detail"] = "caller-owned input changed: " + ",".join(ch[:4])
+    return res
+def gen_gcase(rng, inst):
+    nodes = GNODES[GINST[inst]]
+    if inst in (0, 1):
+        cfg = gen_mesh(rng)["cfg"]; cfg["kind"] = "voronoi" if inst == 1 else "delaunay"; cfg["reg"] = "split"; cfg["pixel_mask"] = None
+        ok = [n for n in range(len(nodes)) if not (inst == 0 and n == 7)]      # Mesh2DDelaunay has no areas_for_magnification
+    elif inst in (2, 5):
+        cfg = rand_cfg(rng); cfg.update(preloads=[], funcs=[], mappers=[[3, 3, rng.choice([1.0, 2.0])]], w_tilde=(inst == 5), positive=False)
+        ok = list(range(len(nodes)))
+    elif inst == 3:
+        cfg = rand_cfg(rng); H, W = cfg["shape"]; cfg["native"] = rng.random() < 0.5
+        cfg["mask2"] = [[(y < 2 or y > H - 3 or x < 2 or x > W - 3) for x in range(W)] for y in range(H)]
+        ok = [n for n in range(len(nodes)) if n != 14]                         # the edited noise map is not a public quantity by itself
+    else:
+        nv = rng.randint(3, 5)
+        cfg = {"shape": [rng.randint(5, 6), rng.randint(5, 6)], "vis": [rng.choice([-1, 1]) * rng.randint(1, 9) for _ in range(2 * nv)],
+               "vis_noise": [rng.choice([1, 2]) for _ in range(2 * nv)], "uv": [rng.randint(-3, 3) for _ in range(2 * nv)],
+               "w_tilde": rng.random() < 0.5, "coeff": rng.choice([1.0, 2.0])}
+        ok = list(range(len(nodes)))
+    reads = []
+    for _ in range(rng.randint(2, 9)):
+        reads.append(rng.choice(ok))
+        if rng.random() < 0.2: reads.append(reads[-1])
+    return {"op": "gcase", "inst": inst, "cfg": cfg, "reads": reads}
+
 # ----------------------------------------------------------------------------- seeded simulation
 def run_seed(inp):
     aa = import_aa()
@@ -801,37 +1555,59 @@ def run_seed(inp):
     H, W = inp["shape"]
     img = np.array(inp["image"], dtype=float).reshape(H, W)
     outs = []
+    bad = []
     for st in inp["states"]:
         np.random.seed(st)
         for _ in range(st % 7): np.random.random()
-        image = aa.Array2D.no_mask(values=img.copy(), pixel_scales=1.0)
+        iv = img.copy()
+        image = aa.Array2D.no_mask(values=iv, pixel_scales=1.0)
+        owned = [iv, image]
         if inp["via"] == "simulator":
-            psf = aa.Kernel2D.no_mask(values=PSF if inp.get("psf") else [[1.0]], pixel_scales=1.0)
+            # the caller's psf: slim-stored, NOT normalised (sum 6): the simulator normalises a copy (normalize_psf=True default)
+            pv = np.array(PSF if inp.get("psf") else [[3.0]])
+            psf = aa.Kernel2D.no_mask(values=pv, pixel_scales=1.0)
+            owned += [pv, psf]; fp = leaves(owned)
             sim = aa.SimulatorImaging(exposure_time=inp["exposure"], background_sky_level=inp["sky"], psf=psf,
                                       noise_seed=inp["seed"], add_poisson_noise_to_data=True)
             ds = sim.via_image_from(image=image)
             outs.append(bits(ds.data.native._array) + bits(ds.noise_map.native._array))
         elif inp["via"] == "interferometer":
             uv = np.array([[1.0, 2.0], [3.0, -1.0], [0.5, 0.25], [-2.0, 1.0]])
+            owned += [uv]; fp = leaves(owned)
             sim = aa.SimulatorInterferometer(uv_wavelengths=uv, exposure_time=inp["exposure"], noise_sigma=0.5, noise_seed=inp["seed"])
             ds = sim.via_image_from(image=image)
             outs.append(bits(np.real(ds.data._array)) + bits(np.imag(ds.data._array)))
         elif inp["via"] == "poisson":
             exp = aa.Array2D.full(fill_value=inp["exposure"], shape_native=(H, W), pixel_scales=1.0)
+            owned += [exp]; fp = leaves(owned)
             outs.append(bits(preprocess.poisson_noise_via_data_eps_from(data_eps=image, exposure_time_map=exp, seed=inp["seed"])))
         else:
+            fp = leaves(owned)
             outs.append(bits(preprocess.gaussian_noise_via_shape_and_sigma_from(shape=(H * W,), sigma=2.0, seed=inp["seed"])))
+        ch = leaves_changed(fp, leaves(owned))
+        if ch: bad.append("caller-owned input changed: " + ",".join(ch[:4]))
     coq = f"(KSeed {cz(inp['seed'])} {clist([carr(o) for o in outs])})"
-    return {"coq": coq, "out": [zlib.crc32(str(o).encode()) for o in outs], "py_ok": None, "nontrivial": True,
-            "kind": "seed:" + inp["via"] + (":unseeded" if inp["seed"] == -1 else "")}
+    res = {"coq": coq, "out": [zlib.crc32(str(o).encode()) for o in outs], "py_ok": False if bad else None, "nontrivial": True,
+           "kind": "seed:" + inp["via"] + (":unseeded" if inp["seed"] == -1 else "")}
+    if bad: res["detail"] = "; ".join(bad[:3])
+    return res
 
 def run_case(inp):
+    r = run_case0(inp)
+    if r.get("coq") and not r["coq"].startswith("(KGraph"): r["coq"] = "(KA " + r["coq"] + ")"
+    return r
+def run_case0(inp):
     op = inp["op"]
     if op == "hist": return run_hist(inp)
     if op == "inv": return run_inv(inp)
     if op == "graph": return run_graph(inp)
     if op == "seed": return run_seed(inp)
     if op == "dsderive": return run_dsderive(inp)
+    if op == "mesh": return run_mesh(inp)
+    if op == "reuse": return run_reuse(inp)
+    if op == "edit": return run_edit(inp)
+    if op == "fit": return run_fit(inp)
+    if op == "gcase": return run_gcase(inp)
     raise ValueError(op)
 
 # ----------------------------------------------------------------------------- generators
@@ -877,8 +1653,12 @@ def gen_history(rng, n_steps, flavour, allow_d8=False):
         g.steps.append({"o": "new", "kind": "nd", "shape": shape, "v": v, "dtype": dt})
         g.inputs.append({"kind": "nd", "for": kind, "mask": mask, "native": native, "shape": shape, "wrong": wrong})
         return len(g.inputs) - 1
-    def construct(i_or_j, from_obj, kind, mask, sn, ok=True, shape_in=None, native_in=None):
-        g.steps.append({"o": "construct", "src": ["obj" if from_obj else "in", i_or_j], "cls": kind, "mask": mask, "store_native": sn})
+    def construct(i_or_j, from_obj, kind, mask, sn, ok=True, shape_in=None, native_in=None, normalize=False, via="ctor", tainted=False):
+        st = {"o": "construct", "src": ["obj" if from_obj else "in", i_or_j], "cls": kind, "mask": mask, "store_native": sn}
+        if normalize: st["normalize"] = True
+        if via != "ctor": st["via"] = via
+        elif kind in ("array", "kernel", "grid") and rng.random() < 0.4: st["share"] = True
+        g.steps.append(st)
         if not ok: return None
         per = KINDS[kind].per
         H, W = len(mask), len(mask[0])
@@ -886,7 +1666,8 @@ def gen_history(rng, n_steps, flavour, allow_d8=False):
         elif kind == "mask": shape = [H, W]
         elif sn: shape = [H, W] + ([2] if per == 2 else [])
         else: shape = [count_false(mask)] + ([2] if per == 2 else [])
-        g.objs.append({"kind": kind, "mask": mask, "native": sn if kind not in ("vis",) else False, "shape": shape, "sliced": False, "reads": set()})
+        g.objs.append({"kind": kind, "mask": mask, "native": sn if kind not in ("vis",) else False, "shape": shape, "sliced": False, "reads": set(),
+                       "tainted": bool(normalize or tainted)})     # tainted: contents are no longer integers (normalised kernel)
         if kind == "mask": g.objs[-1]["native"] = True
         return len(g.objs) - 1
 
@@ -907,7 +1688,7 @@ def gen_history(rng, n_steps, flavour, allow_d8=False):
         i = new_nd(kind, mask, native, wrong)
         sn = rng.random() < 0.5 if kind not in ("vis", "mapper") else False
         if flavour == "dataset" and not all(not b for r in mask for b in r): sn = True if rng.random() < 0.6 else sn
-        j = construct(i, False, kind, mask, sn, ok=not wrong, shape_in=g.inputs[i]["shape"])
+        j = construct(i, False, kind, mask, sn, ok=not wrong, shape_in=g.inputs[i]["shape"], normalize=(kind == "kernel" and rng.random() < 0.5))
         return i, j
     if flavour != "settings":
         open_struct()
@@ -934,7 +1715,7 @@ def gen_history(rng, n_steps, flavour, allow_d8=False):
             for q in k.cached: cands.append(("read", j, q, 3))
             for q in k.plain: cands.append(("plain", j, q, 1))
             cands.append(("peek_obj", j, None, 1))
-            if k.arith: cands.append(("arith", j, None, 3))
+            if k.arith and not o.get("tainted"): cands.append(("arith", j, None, 3))
             if k.derive:
                 cands.append(("copy", j, None, 1))
                 if o["shape"][0] >= 2: cands.append(("slice", j, None, 2))
@@ -943,7 +1724,10 @@ def gen_history(rng, n_steps, flavour, allow_d8=False):
             if o["kind"] in ("array", "dataset") and not o["sliced"] and H >= 3 and W >= 3:
                 if not all(all(r[1:W - 1]) for r in o["mask"][1:H - 1]): cands.append(("trim", j, None, 3 if o["kind"] == "dataset" else 1))
             if o["kind"] == "array" and not o["sliced"] and H >= 3 and W >= 3: cands.append(("alias", j, None, 4 if flavour == "dataset" else 0.3))
-            if o["kind"] in ("array", "grid", "kernel", "vector") and not o["sliced"]: cands.append(("reconstruct", j, None, 1))
+            if o["kind"] in ("array", "grid", "kernel", "vector") and not o["sliced"]:
+                cands.append(("reconstruct", j, None, 1))
+                cands += [("to_native", j, None, 0.8), ("to_slim", j, None, 0.8)]       # derived structures: x.native / x.slim
+                if o["kind"] == "kernel": cands.append(("normalized", j, None, 2))       # psf.normalized
             if o["kind"] == "valued": cands += [("values_masked", j, None, 4), ("maprecon", j, None, 4)]
         for i, x in enumerate(g.inputs):
             cands.append(("peek_in", i, None, 2))
@@ -991,10 +1775,18 @@ def gen_history(rng, n_steps, flavour, allow_d8=False):
             o = g.objs[idx]; H, W = len(o["mask"]), len(o["mask"][0])
             if o["native"]: mask = rand_mask(rng, H, W, p=0.3) if rng.random() < 0.6 else o["mask"]
             else: mask = o["mask"]
-            construct(idx, True, o["kind"], mask, rng.random() < 0.5)
+            construct(idx, True, o["kind"], mask, rng.random() < 0.5, normalize=(o["kind"] == "kernel" and rng.random() < 0.4),
+                      tainted=o.get("tainted"))
+        elif what in ("to_native", "to_slim"):
+            o = g.objs[idx]
+            construct(idx, True, "array" if o["kind"] == "kernel" else o["kind"], o["mask"], what == "to_native", via=what[3:], tainted=o.get("tainted"))
+        elif what == "normalized":
+            o = g.objs[idx]
+            construct(idx, True, "kernel", o["mask"], False, normalize=True, via="normalized")
         elif what == "construct_again":
             x = g.inputs[idx]
-            construct(idx, False, x["for"], x["mask"], rng.random() < 0.5 if x["for"] not in ("vis",) else False, shape_in=x["shape"])
+            construct(idx, False, x["for"], x["mask"], rng.random() < 0.5 if x["for"] not in ("vis",) else False, shape_in=x["shape"],
+                      normalize=(x["for"] == "kernel" and rng.random() < 0.5))
     return g.steps
 
 
@@ -1010,7 +1802,16 @@ def corpus():
                          {"o": "construct", "src": ["in", 0], "cls": kind, "mask": cross, "store_native": False},
                          {"o": "peek_in", "i": 0},
                          {"o": "construct", "src": ["in", 0], "cls": kind, "mask": cross, "store_native": True}, {"o": "peek_in", "i": 0}]))
-    # D10: cached_property values must not travel into derived objects
+    # Kernel2D(values=<slim ndarray | slim Kernel2D>, normalize=True) / psf.normalized normalise IN PLACE: the array they write into
+    # must be the constructor's own copy
+    H.append(("norm", [{"o": "new", "kind": "nd", "shape": [9], "v": [0, 1, 0, 1, 2, 1, 0, 1, 0], "dtype": "float"},
+                       {"o": "construct", "src": ["in", 0], "cls": "kernel", "mask": ff, "store_native": False, "normalize": True},
+                       {"o": "peek_in", "i": 0},
+                       {"o": "construct", "src": ["in", 0], "cls": "kernel", "mask": ff, "store_native": False},
+                       {"o": "construct", "src": ["obj", 1], "cls": "kernel", "mask": ff, "store_native": False, "normalize": True},
+                       {"o": "peek_obj", "j": 1}, {"o": "construct", "src": ["obj", 1], "cls": "kernel", "mask": ff, "store_native": False,
+                                                   "normalize": True, "via": "normalized"},
+                       {"o": "peek_obj", "j": 1}, {"o": "peek_in", "i": 0}, {"o": "plain", "j": 1, "q": "native"}]))
     H.append(("D10", [{"o": "new", "kind": "nd", "shape": [2], "v": [1, 1, 2, 0], "dtype": "complex"},
                       {"o": "construct", "src": ["in", 0], "cls": "vis", "mask": ff, "store_native": False},
                       {"o": "read", "j": 0, "q": "amplitudes"}, {"o": "read", "j": 0, "q": "phases"},
@@ -1062,7 +1863,17 @@ def rand_cfg(rng):
     return {"shape": [H, W], "holes": [list(h) for h in holes], "data": [rng.randint(0, 20) for _ in range(H * W)],
             "noise": [rng.choice([1, 2, 4]) for _ in range(H * W)], "mappers": [list(m) for m in mappers],
             "w_tilde": rng.random() < 0.5, "positive": rng.random() < 0.3, "sub": rng.choice([1, 1, 2]),
-            "preloads": sorted(rng.sample(sorted(PRELOADABLE), rng.choice([0, 0, 1, 2])))}
+            "preloads": sorted(rng.sample(sorted(PRELOADABLE), rng.choice([0, 0, 1, 2]))),
+            "funcs": rand_funcs(rng, H * W - 2 * H - 2 * W + 4 - len(holes)), "force_edge": rng.random() < 0.7,
+            "edge_image": rng.random() < 0.15, "w_tilde_numpy": rng.random() < 0.2, "source_loop": rng.random() < 0.2}
+def rand_funcs(rng, npix):
+    """0-2 linear objects that are not mappers, before and / or after the mappers, unregularized most of the time"""
+    out = []
+    for _ in range(rng.choice([0, 0, 1, 1, 2])):
+        k = rng.randint(1, 2)
+        out.append({"pos": rng.choice(["before", "after"]), "cols": [rng.randint(0, 4) for _ in range(npix * k)],
+                    "coeff": rng.choice([None, None, 1.0])})
+    return out
 
 def gen_inputs(tier, rng):
     big = tier == "thorough"
@@ -1073,13 +1884,16 @@ def gen_inputs(tier, rng):
     for k in range(n_hist):
         f = rng.choice(flav)
         n = rng.randint(6, 26) if f != "settings" else rng.randint(4, 9)
-        yield {"op": "hist", "tag": f, "steps": gen_history(rng, n, f, allow_d8=rng.random() < 0.35)}
+        # the geometry of the masks: anisotropic pixel scales / an origin off the centre for a third of the structure histories
+        geom = {"ps": rng.choice([1.0, 1.0, 1.0, [1.0, 2.0], 0.5]), "origin": rng.choice([[0.0, 0.0], [0.0, 0.0], [0.5, -1.0]])} if f == "struct" else {}
+        yield {"op": "hist", "tag": f, "geom": geom, "steps": gen_history(rng, n, f, allow_d8=rng.random() < 0.35)}
     # inversions: reads of curvature_matrix / curvature_reg_matrix (single regularization: the in-place += path; two: np.add),
     # with no preload / a preloaded curvature matrix / a preloaded block-diagonal matrix (w-tilde only)
     for k in range(400 if big else 40):
         cfg = rand_cfg(rng)
         cfg["positive"] = False
         cfg["preloads"] = []
+        cfg["funcs"] = []
         if len(cfg["mappers"]) == 1 or rng.random() < 0.5: cfg["mappers"][-1][2] = cfg["mappers"][-1][2] or 1.0
         pre = rng.choice(["PNone", "PCurv", "PDiag"] if cfg["w_tilde"] else ["PNone", "PCurv"])
         extra = {"PNone": [], "PCurv": ["QPre"], "PDiag": ["QPreDiag"]}[pre]
@@ -1087,13 +1901,15 @@ def gen_inputs(tier, rng):
         yield {"op": "inv", "cfg": cfg, "pre": pre, "qs": qs}
     yield {"op": "inv", "cfg": {"shape": [5, 6], "holes": [[2, 2]], "data": list(range(30)), "noise": [2] * 30, "mappers": [[3, 3, 1.0], [2, 2, None]],
                                "w_tilde": True, "positive": False, "sub": 1, "preloads": []}, "pre": "PDiag", "qs": ["QF", "QPreDiag", "QFR", "QF", "QPreDiag"]}
-    for k in range(300 if big else 30):
+    for k in range(300 if big else 26):
         cfg = rand_cfg(rng)
         who = ["inv"] * 6 + ["mapper0", "mapper1", "ds", "grids", "mask"]
         reads = []
         for _ in range(rng.randint(3, 14)):
             w = rng.choice(who)
             reads.append([w, rng.choice(GRAPH_Q["mapper" if w.startswith("mapper") else w])])
+        if k % 2 == 0:       # every quantity of the inversion after every other one
+            reads = with_sweeps(rng, reads[:4], [["inv", q] for q in GRAPH_Q["inv"]] + [["mapper0", "mapping_matrix"], ["ds", "signal_to_noise_map"]])
         yield {"op": "graph", "cfg": cfg, "reads": reads}
     # the D20 witness: two mappers, w-tilde, a preloaded block-diagonal curvature matrix
     yield {"op": "graph", "cfg": {"shape": [5, 6], "holes": [[2, 2]], "data": list(range(30)), "noise": [2] * 30, "mappers": [[3, 3, 1.0], [2, 2, 1.0]],
@@ -1125,6 +1941,16 @@ def gen_inputs(tier, rng):
         pre = rng.sample(dsq, rng.randint(1, 4))
         post = sorted(set(pre[:2] + rng.sample(dsq, rng.randint(1, 3))))
         yield {"op": "dsderive", "cfg": cfg, "pre_reads": pre, "derivs": derivs, "post_reads": post}
+    # triangulation meshes (Delaunay / Voronoi): random read orders over mesh / mapper / valued mapper / inversion
+    for k in range(240 if big else 16): yield gen_mesh(rng)
+    # object reuse: one dataset / mapper / settings / Preloads object serving several inversions
+    for k in range(200 if big else 16): yield gen_reuse(rng)
+    # read -> the user edits the object in place -> re-read
+    for k in range(600 if big else 60): yield gen_edit(rng)
+    # fits: FitImaging -> dataset -> inversion -> mappers
+    for k in range(240 if big else 16): yield gen_fit(rng)
+    # PART D: reads on the quantity graphs of Model/C11g.v (cache fills and changed entries are compared inside Coq)
+    for k in range(300 if big else 36): yield gen_gcase(rng, k % 6)
     for k in range(120 if big else 18):
         H, W = rng.randint(2, 4), rng.randint(2, 4)
         vias = ["simulator", "poisson", "gaussian", "interferometer"]
@@ -1140,5 +1966,7 @@ def gen_inputs(tier, rng):
 def extra_evidence():
     return {"distribution": dict(sorted(TALLY.items())),"modelled_operations": ["ONew", "OConstruct(Array2D|Grid2D|VectorYX2D|Kernel2D|Visibilities|Mask2D|MapperRectangular)", "OAlias(Imaging)",
                                     "OArith", "OSlice", "OCopy", "OTrim", "ORead(cached_property)", "OPlain", "OPeekIn", "OPeekObj",
-                                    "OValued(MapperValued)", "OValuesMasked", "OMapRecon", "OInterf", "OImaging"],
+                                    "OValued(MapperValued)", "OValuesMasked", "OMapRecon", "OInterf", "OImaging",
+                                    "OConstruct(.., Some q) = Kernel2D(normalize=True) / psf.normalized", "OConstruct(SObj) = x.native / x.slim"],
+            "graphs": {str(k): {"name": v, "nodes": [f"{o}.{n}:{kd}" for o, n, kd in GNODES[v]]} for k, v in GINST.items()},
             "quantities": {k: {"cached": sorted(v.cached), "plain": v.plain} for k, v in KINDS.items()}}
